@@ -197,6 +197,77 @@ func c01Directed(root *vw.Rng, tr *vw.Trace, id string, lateAfterWriteAtD bool) 
 	vw.Stat("directed", 1)
 }
 
+// c01DirectedCache: "writer cache filled before a repair", with a later lookup that only partly
+// overlaps what is cached (a write across the tract 0/1 boundary when only tract 0 is cached): the
+// refreshed locations of tract 0 must replace the cached ones, or a later read inside tract 0 is
+// served by the replaced server, which is alive at the old version and never saw the new write.
+func c01DirectedCache(root *vw.Rng, tr *vw.Trace, id string) {
+	d := vc.NewDriver(root.Fork(7778), 4, []bool{true, false}, id)
+	defer d.Cl.Close()
+	d.Big = true
+	d.NewBlob(3)
+	d.Cl.S.SetAuto(false)
+	tl := vc.TractLen
+	d.StartWrite(0, 0, 0, 100)
+	d.Quiesce()
+	d.StartRead(0, 0, 0, 50)
+	d.Quiesce()
+	d.StartWrite(0, 0, tl+10, 50) // the blob grows by a tract
+	d.Quiesce()
+	st := d.Cl.D.Tract(d.TractID(0, 0))
+	if !st.OK || len(st.Hosts) != 3 {
+		return
+	}
+	d.StartReplicate(0, 0, []int{int(st.Hosts[2])})
+	d.Quiesce()
+	d.StartWrite(0, 0, tl-20, 50) // across the boundary: looks tracts 0..1 up, tract 0 alone is cached
+	d.Quiesce()
+	d.StartRead(0, 0, tl-20, 19) // inside tract 0
+	d.Quiesce()
+	d.StartRead(1, 0, tl-30, 60)
+	d.Quiesce()
+	d.CheckAllReplicas()
+	c01Report(d, id)
+	d.WriteTrace(tr)
+	vw.Stat("directed", 1)
+}
+
+// c01DirectedCrashPull: "TS restart between bump and pull" sharpened to a crash in the middle of the
+// pull (file created, version recorded, data not written), then the repair is retried at the same
+// version onto the same server: the half-made copy must not be taken for a complete one.
+func c01DirectedCrashPull(root *vw.Rng, tr *vw.Trace, id string) {
+	d := vc.NewDriver(root.Fork(7779), 4, []bool{true, false}, id)
+	defer d.Cl.Close()
+	d.NewBlob(3)
+	d.Cl.S.SetAuto(false)
+	d.StartWrite(0, 0, 0, 100)
+	d.Quiesce()
+	st := d.Cl.D.Tract(d.TractID(0, 0))
+	if !st.OK || len(st.Hosts) != 3 {
+		return
+	}
+	bad := int(st.Hosts[2])
+	d.StartReplicate(0, 0, []int{bad})
+	deliverWhere(d, func(r *vc.RPC) bool { return r.Kind == vc.KSetVersion })
+	for _, r := range d.Cl.S.Pending() {
+		if r.Kind == vc.KPullTract && r.State == vc.StParked {
+			d.StepCrashPull(r)
+			break
+		}
+	}
+	d.Quiesce()
+	d.StartReplicate(0, 0, []int{bad})
+	d.Quiesce()
+	d.StartWrite(0, 0, 50, 100)
+	d.Quiesce()
+	d.CheckAllReplicas()
+	d.StartRead(1, 0, 0, 200)
+	d.Quiesce()
+	c01Report(d, id)
+	d.WriteTrace(tr)
+	vw.Stat("directed", 1)
+}
+
 func TestVerifC01(t *testing.T) {
 	if !vw.Enabled() {
 		t.Skip("verification harness: run through /verif/bin/check")
@@ -217,6 +288,12 @@ func TestVerifC01(t *testing.T) {
 	}
 	if vw.CaseSelected("d1") {
 		c01Directed(root, tr, "d1", true)
+	}
+	if vw.CaseSelected("d2") {
+		c01DirectedCache(root, tr, "d2")
+	}
+	if vw.CaseSelected("d3") {
+		c01DirectedCrashPull(root, tr, "d3")
 	}
 	n := vw.Scale(40, 2000)
 	for ci := 0; ci < n; ci++ {
